@@ -151,6 +151,23 @@ def pseudo_pairs():
     return out
 
 
+def observer_pairs():
+    """an object whose (dynamic) bindings READ another object -- a separator action, a plain action, a widget -- and carry the fault: whatever happens to the reader's
+    bindings, the object that is read stays what it is"""
+    out = []
+    menu = ("import qmluic.QtWidgets\nQMainWindow {\n    id: root\n    QMenuBar {\n        QMenu {\n            id: fileMenu\n            QAction { id: openAct; text: \"Open\" }\n"
+            "            QAction { id: sep; separator: true }\n            QAction {\n                id: quitAct\n                text: \"Quit\"\n%s                visible: sep.visible\n            }\n        }\n    }\n"
+            "    QLabel {\n        id: lbl\n        toolTip: \"t\"\n%s        enabled: sep.enabled\n    }\n}\n")
+    for kind, line in (("duplicate", 'text: "Exit"\n'), ("unknown-property", "fooBar: 1\n"), ("ill-typed", "toolTip: 1 + 2\n")):
+        # one reader per document (a second reader would keep the read object as it is)
+        m1 = menu.replace("        enabled: sep.enabled\n", "")
+        out.append((kind, {"id": "quitAct", "oid": "quitAct", "kind": "action", "parent_id": "fileMenu"}, None, None, m1 % ("                " + line, ""), m1 % ("", "")))
+        l2 = line.replace('text: "Exit"', 'toolTip: "u"').replace("toolTip: 1 + 2", "statusTip: 1 + 2")
+        m2 = menu.replace("                visible: sep.visible\n", "")
+        out.append((kind, {"id": "lbl", "oid": "lbl", "kind": "widget", "parent_id": "root"}, None, None, m2 % ("", "        " + l2), m2 % ("", "")))
+    return out
+
+
 def canon(el, ids):
     """(tag, attrs, text, children) with generated names replaced by '*'"""
     attrs = dict(el.attrib)
@@ -259,6 +276,9 @@ def run(ctx):
         cases.append((kind, o, bad, good, U.render(bad), U.render(good)))
     for c in pseudo_pairs():
         ctx.dist("fault-ill-typed-pseudo (constructed)")
+        cases.append(c)
+    for c in observer_pairs():
+        ctx.dist("fault-in-an-object-that-reads-another (constructed)")
         cases.append(c)
     if ctx.replay and "qml_faulted" in ctx.replay:
         cases = [(ctx.replay["fault"], {"id": ctx.replay.get("object"), "oid": ctx.replay.get("object")}, None, None, ctx.replay["qml_faulted"], ctx.replay["qml_fault_free"])]
